@@ -21,6 +21,13 @@ import (
 
 func init() {
 	register(&Prop{ID: "C18", Run: runC18, Replay: func(c *explore.Ctx, s *explore.SubStats, v explore.Violation) {
+		if v.Sub == "registry" {
+			var in regInput
+			if json.Unmarshal(v.Input, &in) == nil {
+				regCase(c, s, in.Ops)
+			}
+			return
+		}
 		var in kitDoc
 		if json.Unmarshal(v.Input, &in) == nil {
 			c18Doc(c, s, in, true)
@@ -236,4 +243,5 @@ func runC18(c *explore.Ctx) {
 		forEachBlindDoc(c, s, n, func(d kitDoc) { c18Doc(c, s, d, false) })
 		s.WallS = time.Since(t0).Seconds()
 	}
+	registrySub(c)
 }
